@@ -163,13 +163,14 @@ class _Facts:
         return self
 
 
-def search(fn, starts, stop, target, include_entry=False, exit_is_target=None, normal_only=False, feas=False):
+def search(fn, starts, stop, target, include_entry=False, exit_is_target=None, normal_only=False, feas=False, assume=None):
+    """assume: [(condition node, truth)] known to hold at the start positions (only with feas)."""
     if feas:
-        return _search_feas(fn, starts, stop, target, include_entry, exit_is_target, normal_only)
+        return _search_feas(fn, starts, stop, target, include_entry, exit_is_target, normal_only, assume)
     return _search(fn, starts, stop, target, include_entry, exit_is_target, normal_only)
 
 
-def _search_feas(fn, starts, stop, target, include_entry, exit_is_target, normal_only):
+def _search_feas(fn, starts, stop, target, include_entry, exit_is_target, normal_only, assume=None):
     """As _search, but the state carries the FEAS facts and contradictory branches are not taken."""
     q = deque()
     seen = set()
@@ -217,6 +218,10 @@ def _search_feas(fn, starts, stop, target, include_entry, exit_is_target, normal
         return out
 
     f0 = _Facts()
+    for cond, truth in (assume or []):
+        f1 = f0.assume(fn, cond, truth)
+        if f1 is not None:
+            f0 = f1
     if include_entry:
         e = fn.cfg['entry']
         if fn.blocks[e]['elems']:
